@@ -257,6 +257,10 @@ def assembly_check(seed, n_steps):
             if len({nm + '_mem' for nm in names}) < len(names):
                 continue
             asm.machines = machines
+            if asm.past or asm.state is not None:
+                fails.append(dict(name='a new assembly starts with an empty recorded history (independent of other assemblies in the process)',
+                                  past=str(asm.past)[:200]))
+                continue
             try:
                 asm.init()
                 for _ in range(n_steps):
@@ -269,8 +273,10 @@ def assembly_check(seed, n_steps):
                 fails.append(dict(name='assembly of well-named components runs', names=names, error=repr(e)))
                 continue
             n += 1
-            hist = asm.past[1:] + [asm.state]
-            prev = asm.past[0] if asm.past else None
+            if len(asm.past) != n_steps:
+                fails.append(dict(name='after init and k steps exactly k earlier states are recorded',
+                                  recorded=len(asm.past), steps=n_steps))
+                continue
             for nm, m in machines.items():
                 for loc in m.seen:
                     if not set(loc) <= set(m.vars):
